@@ -525,7 +525,7 @@ func ruleR14_4(r *Run) {
 }
 
 func init() {
-	register(ruleDef{ID: "R14.5", Prop: "C14", Tier: "quick", Floor: 2,
+	register(ruleDef{ID: "R14.5", Prop: "C14", Tier: "quick", Floor: 1,
 		Title: "sibling agreement of the vote loops: wherever a winner is chosen from a label→votes map, a tie is broken towards the smaller label in every implementation",
 		Fn:    ruleR14_5})
 }
@@ -614,7 +614,8 @@ func ruleR14_5(r *Run) {
 			}
 		}
 	}
-	if n < 2 {
+	// downresArray and DownresLabels each have one on today's tree; a shared helper (one loop) serves both as well
+	if n < 1 {
 		r.undecided("vote-loops", fmt.Sprintf("only %d vote loops found", n))
 	}
 }
